@@ -914,6 +914,8 @@ spif_linked_list_reverse(spif_linked_list_t self)
     spif_linked_list_item_t current, tmp, previous;
 
     ASSERT_RVAL(!SPIF_LIST_ISNULL(self), FALSE);
+    /* (An empty list stays empty.) */
+    tmp = (spif_linked_list_item_t) NULL;
     for (previous = (spif_linked_list_item_t) NULL, current = self->head; current; previous = tmp) {
         tmp = current;
         current = current->next;
